@@ -82,6 +82,24 @@ class C13(Prop):
             first = [(bad, True)] + [(n, r.random() < 0.7) for n in NAMES if n != bad and r.random() < 0.5]
             chs = [{"pathset": wp(first)}, dict({"pathset": wp(rand_ps())} if r.random() < 0.7 else {"watcher": r.choice(["poll", "native", "poll2"])}, on_error=0)]
             cases.append({"changes": chs, "fail_watch": [bad], "fail_unwatch": [], "det": False})
+        # through a whole Watchexec instance: changes issued from within the instance's own error handler (when a failing watch() is
+        # reported) and action handler (when an urgent event is handled), including a handler replacing itself; afterwards another
+        # failing attempt and another event must still be reported / handled, and the registration must converge
+        inner = [{"error_handler": True}, {"handler": True}, {"keyboard": True}, {"throttle": 10}, None, None, "watcher"]
+        for i in range(16 if tier == "quick" else 160):
+            bad = r.choice(NAMES)
+            first = [(bad, True)] + [(n, r.random() < 0.7) for n in NAMES if n != bad and r.random() < 0.5]
+            def pick():
+                x = inner[i % len(inner)] if r.random() < 0.7 else r.choice(inner)
+                if x is None:
+                    return {"pathset": wp([(bad, True)] + [(n, True) for n in NAMES if n != bad and r.random() < 0.5])}
+                if x == "watcher":
+                    return {"watcher": r.choice(["poll", "native", "poll2"])}
+                return dict(x)
+            chs = [{"pathset": wp(first), "gap_ms": 40}, dict(pick(), on_error=0), {"event": True, "gap_ms": 40}, dict(pick(), on_action=0),
+                   {"pathset": wp([(bad, False)] + [(n, True) for n in NAMES if n != bad and r.random() < 0.5]), "gap_ms": 40},
+                   {"event": True, "gap_ms": 40}]
+            cases.append({"changes": chs, "fail_watch": [bad], "fail_unwatch": [], "det": False, "via": "wx"})
         for i, c in enumerate(cases):
             c["id"] = i
         return cases
@@ -141,6 +159,12 @@ class C13(Prop):
         for case, o in zip(cases, obs):
             c.evaluations += 1
             c.count("deterministic" if case["det"] else "mid-apply/rapid")
+            if o.get("hung"):
+                c.failing.append({"case": case, "impl": "no progress for 10 s", "clause": "C13_handler_reconfig: the instance stopped making progress "
+                                  "(every runtime thread blocked) after a change made from within a handler"})
+                if case["det"]:
+                    mi += 1
+                continue
             ps, kind = final_cfg(case, o)
             want = "none" if not ps else kind + "[" + ",".join(sorted(f"{p['p']}:{'r' if p['rec'] else 'n'}" for p in ps if p["p"] not in case["fail_watch"])) + "]"
             got = impl_final(o)
@@ -205,6 +229,22 @@ class C13(Prop):
                                       "clause": "C13_error_per_attempt: runtime errors differ from the number of failing registration attempts"})
             else:
                 c.validated += (got == want)
+            if case.get("via") == "wx":
+                c.count("through Watchexec::main, changes from within its handlers")
+                nfail = sum(1 for x in o["calls"] if x.startswith("watch(") and x.split(",")[1] in case["fail_watch"])
+                if len(o["errors"]) != nfail:
+                    c.failing.append({"case": case, "impl": {"errors": o["errors"], "failing_attempts": nfail, "calls": o["calls"]},
+                                      "clause": "C13_handler_reconfig: a failing registration attempt was not reported to the error handler (in force) "
+                                                "after a change made from within a handler -- dead-locked or lost"})
+                kb = any(ch.get("keyboard") for ch in case["changes"])      # the keyboard source reports the end of the harness's stdin: one more event
+                if len(o["actions"]) < o["events_sent"] or (len(o["actions"]) > o["events_sent"] + (1 if kb else 0)):
+                    c.failing.append({"case": case, "impl": {"actions": o["actions"], "events_sent": o["events_sent"]},
+                                      "clause": "C13_handler_reconfig: an event sent after a change made from within a handler was not handled by the "
+                                                "action handler (in force) -- dead-locked or lost"})
+                # a replacement takes effect for the next invocation, not for the one in progress
+                gens = [int(a.split(":")[0][1:]) for a in o["actions"]] + [int(e.split(":")[0][1:]) for e in o["errors"]]
+                if any(g >= 100 for g in gens):
+                    c.failing.append({"case": case, "impl": {"actions": o["actions"], "errors": o["errors"]}, "clause": "C13: handler generation out of range"})
             if len(case["changes"]) >= 2:
                 c.nontrivial.add(json.dumps(case, sort_keys=True))
             if len(c.samples) < 4 and len(case["changes"]) >= 3:
